@@ -225,6 +225,9 @@ def literal_tensor(it, v, node, kind="tensor"):
         if isinstance(x, (VList, VTuple)):
             items = it.concrete_items(x)
             if items is None:
+                src = getattr(getattr(x, "obj", None), "source", None)
+                if src is not None and getattr(src, "tag", None):
+                    return T.sym("arr:%s" % src.tag), (UNK,)
                 return None, None
             subs = [rec(e) for e in items]
             if any(s[0] is None for s in subs):
